@@ -147,6 +147,10 @@ func body(fams []t1fonts.Family, famIdx int) func(c *mc.Ctx, item int) mc.Verdic
 		if err != nil {
 			return fail("C09:write-error", "Write: "+err.Error())
 		}
+		// writing is an observation: the font handed to Write is what it was before
+		if after, before := t1fonts.Dump(src), t1fonts.Dump(pristine); after != before {
+			return fail("C09:write-changed-the-font", "the font value differs after Write: "+after)
+		}
 		got, err := type1.Read(bytes.NewReader(buf.Bytes()))
 		c.Step()
 		if err != nil {
